@@ -256,7 +256,7 @@ def run(prog, rep):
     # ---- C06.4 identity --------------------------------------------------------
     nw = u.fn("p_semaphore_new").inlined()
     writers = []
-    for f in u.functions.values():
+    for f in u.roots():
         for b, i, n in f.nodes():
             if n["k"] == "asg":
                 l = strip_casts(n["l"])
